@@ -727,13 +727,17 @@ namespace occa {
 
       bool finishedComment = false;
       while (!finishedComment && *fp.start != '\0') {
-        skipTo('*');
-        if (*fp.start == '*') {
-          ++fp.start;
-          if (*fp.start == '/') {
-            ++fp.start;
-            finishedComment = true;
+        // A backslash doesn't escape anything inside a comment,
+        //   so skipTo('*') can't be used here: /* \*/ is a complete comment
+        if ((fp.start[0] == '*') && (fp.start[1] == '/')) {
+          fp.start += 2;
+          finishedComment = true;
+        } else {
+          if (*fp.start == '\n') {
+            fp.lineStart = fp.start + 1;
+            ++fp.line;
           }
+          ++fp.start;
         }
       }
 
